@@ -178,3 +178,37 @@ Example spec_roundtrip_examples :
   spec_dec32 [67; 79] = Some [102] /\ spec_dec32 [99; 111] = Some [102] /\ spec_dec32 [67] = None /\
   spec_dec16 [102; 48] = Some [240] /\ spec_dec16 [70] = None.
 Proof. vm_compute. repeat split. Qed.
+
+(* shape of well-formed Base64 text: length a multiple of 4, every character
+   in the alphabet or '=' *)
+Lemma spec_dec64_shape s bs : spec_dec64 s = Some bs ->
+  Nat.modulo (length s) 4 = 0%nat /\ Forall (fun c => c = 61 \/ val64 c <> None) s.
+Proof.
+  revert bs.
+  induction s as [|a|a b|a b c|a b c d r IH] using list_ind4; intros bs H; try discriminate.
+  - split; [reflexivity|constructor].
+  - cbn [spec_dec64] in H.
+    assert (Hs : (val64 a <> None /\ val64 b <> None /\ (c = 61 \/ val64 c <> None) /\
+                  (d = 61 \/ val64 d <> None)) /\
+                 (r = [] \/ exists bs', spec_dec64 r = Some bs')).
+    { destruct r as [|x l].
+      - split; [|left; reflexivity].
+        destruct (val64 a); [|discriminate]. destruct (val64 b); [|discriminate].
+        destruct (N.eqb_spec c 61).
+        + destruct (N.eqb_spec d 61); [|discriminate]. repeat split; auto; discriminate.
+        + destruct (val64 c); [|discriminate].
+          destruct (N.eqb_spec d 61).
+          * repeat split; auto; try discriminate. right; discriminate.
+          * destruct (val64 d); [|discriminate]. repeat split; try discriminate; right; discriminate.
+      - destruct (val64 a); [|discriminate]. destruct (val64 b); [|discriminate].
+        destruct (val64 c); [|discriminate]. destruct (val64 d); [|discriminate].
+        destruct (spec_dec64 (x :: l)) as [bs'|]; [|discriminate].
+        split; [repeat split; try discriminate; right; discriminate|right; eauto]. }
+    destruct Hs as [(Ha & Hb & Hc & Hd) Hr].
+    assert (R : Nat.modulo (length r) 4 = 0%nat /\ Forall (fun c => c = 61 \/ val64 c <> None) r).
+    { destruct Hr as [->|[bs' Hr]]; [split; [reflexivity|constructor]|exact (IH bs' Hr)]. }
+    destruct R as [R1 R2]. split.
+    + change (length (a :: b :: c :: d :: r)) with (4 + length r)%nat.
+      clear - R1. revert R1. generalize (length r). intros n Hn. lia.
+    + repeat (constructor; auto).
+Qed.
